@@ -28,11 +28,17 @@ type flavour interface {
 
 // ---- internal/imapnum.Set ----
 type fNum struct {
-	s verifnum.Set
-	k keeper
+	s  verifnum.Set
+	k  keeper
+	nm string
 }
 
-func (f *fNum) Name() string         { return "imapnum.Set" }
+func (f *fNum) Name() string {
+	if f.nm != "" {
+		return f.nm
+	}
+	return "imapnum.Set"
+}
 func (f *fNum) AddNum(vs ...uint32)  { f.s.AddNum(vs...) }
 func (f *fNum) AddRange(a, b uint32) { f.s.AddRange(a, b) }
 func (f *fNum) AddSet(t [][2]uint32) {
@@ -65,11 +71,17 @@ func (f *fNum) ParseBack(text string) (flavour, error) {
 
 // ---- imap.SeqSet ----
 type fSeq struct {
-	s imap.SeqSet
-	k keeper
+	s  imap.SeqSet
+	k  keeper
+	nm string
 }
 
-func (f *fSeq) Name() string         { return "imap.SeqSet" }
+func (f *fSeq) Name() string {
+	if f.nm != "" {
+		return f.nm
+	}
+	return "imap.SeqSet"
+}
 func (f *fSeq) AddNum(vs ...uint32)  { f.s.AddNum(vs...) }
 func (f *fSeq) AddRange(a, b uint32) { f.s.AddRange(a, b) }
 func (f *fSeq) AddSet(t [][2]uint32) {
@@ -102,11 +114,17 @@ func (f *fSeq) ParseBack(text string) (flavour, error) {
 
 // ---- imap.UIDSet ----
 type fUID struct {
-	s imap.UIDSet
-	k keeper
+	s  imap.UIDSet
+	k  keeper
+	nm string
 }
 
-func (f *fUID) Name() string { return "imap.UIDSet" }
+func (f *fUID) Name() string {
+	if f.nm != "" {
+		return f.nm
+	}
+	return "imap.UIDSet"
+}
 func (f *fUID) AddNum(vs ...uint32) {
 	uids := make([]imap.UID, len(vs))
 	for i, v := range vs {
@@ -153,7 +171,13 @@ func (f *fUID) ParseBack(text string) (flavour, error) {
 	return &fUID{s: ns.(imap.UIDSet)}, nil
 }
 
-func newFlavours() []flavour { return []flavour{&fNum{}, &fSeq{}, &fUID{}} }
+// Every flavour starts from the zero value (a nil slice) and from the other two ways an empty set is written down:
+// an empty literal and make(T, 0) - non-nil, no capacity.  All are the empty set.
+func newFlavours() []flavour {
+	return []flavour{&fNum{}, &fSeq{}, &fUID{},
+		&fNum{s: verifnum.Set{}, nm: "imapnum.Set{}"}, &fSeq{s: imap.SeqSet{}, nm: "imap.SeqSet{}"}, &fUID{s: imap.UIDSet{}, nm: "imap.UIDSet{}"},
+		&fSeq{s: make(imap.SeqSet, 0), nm: "make(imap.SeqSet,0)"}, &fUID{s: make(imap.UIDSet, 0), nm: "make(imap.UIDSet,0)"}}
+}
 
 // ---- value semantics ----
 // In the specification a number set is a value: AddSet(t) makes the receiver the union and nothing ties
